@@ -35,7 +35,13 @@ RULE = (
     "session). "
     "Oracle: expected projection (key, serialised meta fields, {name: value}, loaded) computed from the "
     "spec by the documented rule (size/nfiles when not None, the other fields when truthy) versus the "
-    "projection read attribute-wise from what comes back; key sets equal, entries equal one by one; the "
+    "projection read attribute-wise from what comes back; key sets equal, entries equal one by one; in "
+    "half of the SQLite cases the last session also registers an ObjectStorage over a store holding "
+    "hand-written .dir objects, adds 1-2 unloaded directory entries (isdir + .dir hash, loaded None/False), "
+    "triggers the lazy load through iteritems / iteritems(prefix) / __getitem__ or info of a child / ls / "
+    "load (or leaves it to the final iteration), commits, and the reopened index (no storage) must equal, key "
+    "by key incl. the materialised children and the loaded flags, what the open handle reported right before "
+    "close; the "
     "SQLite form is read before close (through the identity cache, by iteration and by lookup) and after "
     "reopen; a listing with metadata (per entry the Meta field named like the hash - md5/etag/checksum - is "
     "drawn absent, equal to or different from the hash value) must parse back (given its hash name) to the "
@@ -254,34 +260,147 @@ def read_open_index(index):
     return got, by_lookup
 
 
-def arm_sqlite(ops, split, d, viols):
+LAZY_OIDS = {"1": "c157a79031e1c40f85931829bc5fc552", "2": "d41d8cd98f00b204e9800998ecf8427e",
+             "3": "acbd18db4cc2f85cedef654fccc4a4d8"}
+LAZY_TRIGGERS = ["iteritems", "iteritems-prefix", "getitem-child", "info-child", "ls", "ls-names", "load", "none"]
+
+
+def lazy_dir_key(n, spec):
+    return (*spec["prefix"], f"lzd{n}")
+
+
+def lazy_listing_bytes(rows):
+    """The stored directory object, written by hand: sorted rows, sorted members (optionally with size/isexec)."""
+    items = []
+    for rel, tok, extra in sorted(rows, key=lambda r: "/".join(r[0])):
+        items.append(json.dumps({**extra, "md5": LAZY_OIDS[tok], "relpath": "/".join(rel)}, sort_keys=True))
+    return ("[" + ", ".join(items) + "]").encode("utf-8")
+
+
+def snapshot(index):
+    """Projection of every entry as read attribute-wise through a handle: {key: (meta, hash, loaded, own key)}"""
+    return {key: (typed(obs_meta(e.meta)), obs_hi(e.hash_info), e.loaded, e.key)
+            for key, e in index.iteritems()}
+
+
+def lazy_phase(index, lazy, d, classes):
+    """Register object storage, add unloaded directory entries whose listings are in the store, trigger the
+    lazy load through the drawn entry point, commit. Returns the observation through the open handle."""
+    import hashlib
+
+    from .. import ops as vops
+    from dvc_data.hashfile.hash_info import HashInfo
+    from dvc_data.hashfile.meta import Meta
+    from dvc_data.index import DataIndexEntry, ObjectStorage
+
+    root = os.path.join(d, "lazy-odb")
+    odb = vops.make_odb(lazy.get("store", "generic"), root)
+    for n, spec in enumerate(lazy["dirs"]):
+        key = lazy_dir_key(n, spec)
+        data = lazy_listing_bytes(spec["rows"])
+        oid = hashlib.md5(data).hexdigest() + ".dir"  # noqa: S324
+        os.makedirs(os.path.join(root, oid[:2]), exist_ok=True)
+        with open(os.path.join(root, oid[:2], oid[2:]), "wb") as f:
+            f.write(data)
+        index.storage_map.add_cache(ObjectStorage(key, odb))
+        meta = Meta(isdir=True, nfiles=len(spec["rows"])) if spec.get("nfiles", True) else Meta(isdir=True)
+        index[key] = DataIndexEntry(key=key, meta=meta, hash_info=HashInfo("md5", oid), loaded=spec["loaded"])
+    if lazy.get("commit_before_load"):
+        index.commit()
+    for n, spec in enumerate(lazy["dirs"]):
+        key = lazy_dir_key(n, spec)
+        child = (*key, *spec["rows"][0][0])
+        trig = spec["trigger"]
+        classes.append("lazy:trigger=" + trig)
+        if trig == "iteritems":
+            list(index.iteritems())
+        elif trig == "iteritems-prefix":
+            list(index.iteritems(prefix=key))
+        elif trig == "getitem-child":
+            index[child]
+        elif trig == "info-child":
+            index.info(child)
+        elif trig == "ls":
+            list(index.ls(key, detail=True))
+        elif trig == "ls-names":
+            list(index.ls(key, detail=False))
+        elif trig == "load":
+            index.load()
+    index.commit()
+    snapshot(index)          # loads whatever the trigger did not reach
+    pre = snapshot(index)    # what the open handle reports right before close
+    index.commit()
+    for n, spec in enumerate(lazy["dirs"]):
+        key = lazy_dir_key(n, spec)
+        if key in pre and pre[key][2] is True and any(k[:len(key)] == key and k != key for k in pre):
+            classes.append("lazy:dir-loaded-before-close")
+        if any(len(r[0]) > 1 for r in spec["rows"]):
+            classes.append("lazy:nested-listing")
+    return pre
+
+
+def compare_snapshots(form, pre, post, viols):
+    if set(pre) != set(post):
+        viols.append(Viol(f"{form}:keys", f"{form}: key set changed across close/reopen: missing "
+                                          f"{sorted(set(pre) - set(post))}, extra {sorted(set(post) - set(pre))}"))
+    for key in sorted(set(pre) & set(post)):
+        (m0, h0, l0, k0), (m1, h1, l1, k1) = pre[key], post[key]
+        if m0 != m1:
+            field = sorted(set(m0) ^ set(m1) | {f for f in m0 if f in m1 and m0[f] != m1[f]})[0]
+            viols.append(Viol(f"{form}:meta:{field}", f"{form}: metadata of {key!r}: open handle {m0}, reopened {m1}"))
+        if h0 != h1:
+            viols.append(Viol(f"{form}:hash", f"{form}: hash of {key!r}: open handle {h0}, reopened {h1}"))
+        if l0 is not l1:
+            viols.append(Viol(f"{form}:loaded", f"{form}: loaded flag of {key!r}: open handle {l0!r}, "
+                                                f"reopened {l1!r}"))
+        if k0 != k1:
+            viols.append(Viol(f"{form}:entry-key", f"{form}: entry key of {key!r}: open handle {k0!r}, "
+                                                   f"reopened {k1!r}"))
+
+
+def arm_sqlite(ops, split, d, viols, lazy=None, classes=None):
     """DataIndex.open -> writes -> commit -> [read] -> close -> reopen -> [more writes -> commit -> close ->
-    reopen] -> read. Returns the final model."""
+    reopen] -> read. With `lazy`, the last session additionally registers object storage, adds unloaded
+    directory entries, loads them lazily and commits; the reopened index (no storage) must equal what the
+    open handle reported right before close. Returns the final model (without the lazily loaded keys)."""
     from dvc_data.index import DataIndex
 
     path = os.path.join(d, "index.sqlite")
     model = {}
+    classes = classes if classes is not None else []
     sessions = [ops[:split], ops[split:]] if 0 < split < len(ops) else [ops]
     for n, chunk in enumerate(sessions):
+        pre = None
         index = DataIndex.open(path)
         try:
             apply_ops(index, chunk, model)
             index.commit()
             got, by_lookup = read_open_index(index)
+            if lazy and n == len(sessions) - 1:
+                pre = lazy_phase(index, lazy, d, classes)
         finally:
             index.close()
         compare_index(f"sqlite-open{n}", model, got, viols)
         compare_index(f"sqlite-open{n}-lookup", model, by_lookup, viols)
         index = DataIndex.open(path)
         try:
+            post = snapshot(index) if pre is not None else None
             got, by_lookup = read_open_index(index)
             n_items = len(index)
         finally:
             index.close()
+        expect_len = len(model)
+        if pre is not None:
+            compare_snapshots("sqlite-lazy-reopen", pre, post, viols)
+            lazy_keys = [lazy_dir_key(i, sp) for i, sp in enumerate(lazy["dirs"])]
+            under = lambda k: any(k[:len(lk)] == lk for lk in lazy_keys)  # noqa: E731
+            got = {k: v for k, v in got.items() if not under(k)}
+            by_lookup = {k: v for k, v in by_lookup.items() if not under(k)}
+            expect_len = len(pre)
         compare_index("sqlite-reopen", model, got, viols)
         compare_index("sqlite-reopen-lookup", model, by_lookup, viols)
-        if n_items != len(model):
-            viols.append(Viol("sqlite-reopen:len", f"len() = {n_items} for {len(model)} stored keys"))
+        if n_items != expect_len:
+            viols.append(Viol("sqlite-reopen:len", f"len() = {n_items} for {expect_len} stored keys"))
     return model
 
 
@@ -387,6 +506,17 @@ def validate(case):
                     assert ms.get(f) is None or 0 <= ms[f] < 2 ** 63
             assert op["loaded"] in (None, True, False)
     assert set(case["forms"]) <= {"json", "db", "sqlite", "tree"}
+    if case.get("lazy"):
+        assert "sqlite" in case["forms"]
+        for spec in case["lazy"]["dirs"]:
+            assert spec["trigger"] in LAZY_TRIGGERS and spec["loaded"] in (None, False) and spec["rows"]
+            rels = [tuple(r[0]) for r in spec["rows"]]
+            assert len(set(rels)) == len(rels)
+            for a in rels:
+                assert a and all(isinstance(p, str) and p and "/" not in p and "\0" not in p for p in a)
+                assert not any(a != b and b[:len(a)] == a for b in rels), "listing keys must be prefix-free"
+            for p in spec["prefix"]:
+                assert isinstance(p, str) and p and "/" not in p and "\0" not in p and not p.startswith("lzd")
 
 
 def final_model(ops, drop_root):
@@ -436,7 +566,7 @@ def run_case(case, ctx):
             arm_db(model, order, d, viols)
         full = None
         if "sqlite" in forms:
-            full = arm_sqlite(ops, case.get("split", 0), d, viols)
+            full = arm_sqlite(ops, case.get("split", 0), d, viols, case.get("lazy"), classes)
         if "tree" in forms:
             n_tree = arm_tree(model, case.get("tree_hash", "md5"), order, viols, case.get("tree_rel"), classes)
 
@@ -597,6 +727,24 @@ MUTATIONS = [("size", 0), ("size", 7), ("nfiles", 0), ("isexec", True), ("remote
              ("md5", HEX[0]), ("etag", "e2"), ("version_id", "v2"), ("loaded", False)]
 
 
+_ROW = st.tuples(st.lists(st.sampled_from(ALL_PARTS), min_size=1, max_size=3), st.sampled_from(["1", "2", "3"]),
+                 st.sampled_from([{}, {}, {"size": 0}, {"size": 4}, {"size": 0, "isexec": True}, {"isexec": True}]))
+_LAZY_DIR = st.tuples(st.lists(st.sampled_from(ALL_PARTS), max_size=2), st.lists(_ROW, min_size=1, max_size=4),
+                      st.sampled_from([None, None, False]), st.sampled_from(LAZY_TRIGGERS), st.booleans())
+_LAZY = st.one_of(st.none(), st.tuples(st.lists(_LAZY_DIR, min_size=1, max_size=2),
+                                       st.sampled_from(["generic", "local"]), st.booleans()))
+
+
+def _prefix_free_rows(rows):
+    out = []
+    for rel, tok, extra in rows:
+        rel = tuple(rel)
+        if any(rel[:len(o[0])] == tuple(o[0]) or tuple(o[0])[:len(rel)] == rel for o in out):
+            continue
+        out.append([list(rel), tok, extra])
+    return out
+
+
 @st.composite
 def cases(draw):
     ops = draw(_OPS)
@@ -633,7 +781,17 @@ def cases(draw):
         else:
             new = {"op": "del", "key": base["key"]}
         ops = ops[:] + [new]
-    return {"ops": ops, "forms": forms, "split": split, "tree_hash": tree_hash, "tree_rel": tree_rel}
+    case = {"ops": ops, "forms": forms, "split": split, "tree_hash": tree_hash, "tree_rel": tree_rel}
+    if "sqlite" in forms:
+        lazy = draw(_LAZY)
+        if lazy is not None:
+            dirs, store, commit_first = lazy
+            case["lazy"] = {
+                "store": store, "commit_before_load": commit_first,
+                "dirs": [{"prefix": prefix, "rows": _prefix_free_rows(rows), "loaded": loaded, "trigger": trig,
+                          "nfiles": nfiles} for prefix, rows, loaded, trig, nfiles in dirs],
+            }
+    return case
 
 
 def run(ctx):
